@@ -292,6 +292,25 @@ def emitter_checks(ctx, rng, hook, n):
             if EmitHook.decode(got) != text:
                 ctx.violation(f"conversion off but text altered: {text!r} -> {got!r}",
                               {"text": text, "position": "emitter", "convert": False}, {"got": got})
+        elif r < 0.7:
+            # conversion on: a SUPPORTED command directly followed by a brace group is looked up together
+            # with the group; when that lookup misses (empty group, unknown argument) the text stays verbatim
+            known = rng.choice([c for c in T if c[1:].isalpha()])
+            grp = rng.choice(["{}", "{}", "{x}", "{ab c}", "{1}"])
+            if (known + grp) in T:
+                continue
+            pre = "".join(rng.choice(plain) for _ in range(rng.randint(0, 5)))
+            suf = rng.choice(["", "g", " 2", ", z", " \\alpha"])
+            text = pre + known + grp + suf
+            got = EmitHook.decode(TextContent(text=text, convert=True)._convert_special_chars())
+            want = pre + known + grp + suf.replace("\\alpha", "\u03b1")
+            ctx.count("emitter_hook_evaluations")
+            ctx.count("known_command_with_unmapped_group")
+            ctx.case((text, "emitter", True), True)
+            if got != want:
+                ctx.violation(f"supported command + brace group without a table entry not left verbatim: {text!r} -> "
+                              f"{got!r} (expected {want!r})", {"text": text, "position": "emitter", "convert": True},
+                              {"got": got, "want": want})
         else:
             # conversion on: unknown commands stay verbatim; known neighbours still convert
             name = "\\" + "".join(rng.choice(alpha) for _ in range(rng.randint(2, 9)))
